@@ -172,7 +172,7 @@ CLAIMED = {
         "compared, alias resolution follows standardisation and precedes the look-up; list-valued header vectors that a helper indexes in lock step are each size-tested "
         "against one expected count (exit on mismatch) on every path to that call; a key registered with the address of a vector element survives every resize of that vector by a keyword processor (F44, F50, fixed); "
         "no non-literal text is copied into a fixed-size buffer in the Interfile readers without a length test (F47, fixed); counts from the header are range-checked before they size vectors (F45, fixed); "
-        "the index of a vectorised key is converted strictly (F43, fixed). NOT decided: absence of out-of-bounds access under "
+        "the index of a vectorised key is converted strictly (F43, fixed). nothing parse_value_in_line evaluates before the keyword look-up can end in error() - comments and unknown keys are skipped whatever they contain (F80, a regression of the repair F43, fixed). NOT decided: absence of out-of-bounds access under "
         "arbitrary bytes for the whole parser, value formatting round trips.",
         technique="static analysis: switch exhaustiveness against the registration API, must-facts bounds, resolved-callee ordering "
         "(must-pass-through), result-use discipline",
